@@ -1880,7 +1880,6 @@ func sqlHelperRoles(c *Ctx, printed string) string {
 	return printed
 }
 
-
 // sourceIdentity: token positions (Idx, Col, Line) are offsets into the string the lexer was given, and the debug report
 // prints the string Debug was given with values placed at those columns. The two agree only if the very same, unmodified
 // string travels Debug -> Expr.Compile -> Expr.Parse -> lexer.Lex -> []rune(..), starting at the zero position, and the
